@@ -116,7 +116,7 @@ CHECKS = {
 ADDED = {
     "C10": " Also: (e) no where(mask, a, f(x)) in the differentiated forward maps hides an operation with a singular derivative behind the mask (nan gradients at the masked point); the ladder evaluator reads abs / real / imag of scalars, so a gradient written with |tanh r| instead of tanh r is decided.",
     "C02": " Also: (f) axis typing of the detector matrix: a size read from axis k of a matrix parameter bounds only indices that run along axis k of that matrix (number of alternatives of a draw whose probability vector is a column, indices from range / itertools.product into a column, bound tests of direct indices), followed through helper return values - exact and sampled treatment of imperfect detectors agree. Also: (d) no random draw is stored under a data-dependent key and reused for several sample components. Also: (g) the position-eigenfunction weights with which the multi-mode pure-Fock homodyne sampler conditions the next mode carry the normaliser of the Hermite index (H_n(x) / sqrt(2^n n!)); known finding 32 on the current tree.",
-    "C05": " Also: (d) mode tuples live in two index spaces (positions among the active modes vs original mode labels); each call from a simulation step into a state method hands the space the parameter is used in there (inferred from its combination with the post-selected modes / its use as an index into the active modes), converting with map_to_original_modes; (e) a positional cursor carried from one loop iteration to the next is advanced on every path through the loop body (no `continue` before its update); (f) only the state's initialiser and _apply_matrix_on_modes assign the effective interferometer (simulation steps never write it directly, because they hold positions among the active modes).",
+    "C05": " Also: (d) mode tuples live in two index spaces (positions among the active modes vs original mode labels); each call from a simulation step into a state method hands the space the parameter is used in there (inferred from its combination with the post-selected modes / its use as an index into the active modes), converting with map_to_original_modes; (e) a positional cursor carried from one loop iteration to the next is advanced on every path through the loop body (no `continue` before its update); (f) only the state's initialiser and _apply_matrix_on_modes assign the effective interferometer (simulation steps never write it directly, because they hold positions among the active modes). Also: (g) in the general Gram-matrix kernel the overlap matrix is paired with the amplitudes as <phi_j|phi_i> for amplitude(i) conj(amplitude(j)): outer(v, conj(v)) goes with conj(G) / G^T, outer(conj(v), v) with G (finding 33).",
     "C03": " Also: (d) every branch state handed on by a step reachable with shots=None is the normalised projection (constructor with a normalization argument or normalize() on the way), which is what makes the simulator's multiplication of child by parent weights the chain rule. Also: (c) in every `shots is None` arm the weights handed on are the iterated probabilities themselves (times the parent branch's weight), not a renormalised or rescaled value.",
     "C04": " Also: the absolute-threshold rule covers the numba hafnian kernels (the guard of an identity-rescaling arm is the accepted idiom); an exact zero test of a sum is applied to summands that cannot cancel. Also: no `<<` is evaluated in fewer bits than the stated multiplicity range needs with a run-time count; an in-place rescaling helper returns on every path the factor it applied on that path; the native kernels branch on computed floating values only through exact tests (no absolute tolerance). Also: (f) a scale factor computed as a norm of the input (sum of absolute values) is never used as a divisor - in the same function, in a callee that receives it, or after being returned - without a dominating zero test (the all-zero matrix is a legal input); (g) an entry of a kernel's input array or of a copy of it is only updated from its old value, never overwritten.",
     "C07": " Also: every moment update of the six Gaussian update functions is executed on every non-raising path (CFG must-pass-through). Also: every closed-form block is free of config.hbar; the S_(c) matrices printed in the class docstrings equal [[P, A], [conj A, conj P]] assembled from the blocks (LaTeX fragment reader); the steps registered for gates keep the requested mode order (no sorted image, no order-insensitive shortcut). Also: (g) ownership of the Gaussian second moments - only the update helpers assign C and G (always both); the registered steps never do and change m only additively; helper methods of a gate class are evaluated in place by the closed-form engine.",
@@ -124,15 +124,15 @@ ADDED = {
     "C09": " Also: (e) a connector's hand-written polar decomposition has the contract of scipy.linalg.polar (P^2 = M^dagger M, U = M P^-1 on the right; P^2 = M M^dagger, U = P^-1 M on the left), decided in the matrix-word algebra; the result of connector.assign bound to a local that is never read again is reported (lost update under functional connectors). Also: (d) the NumPy/numba and the JAX implementation of the Gaussian density-matrix recurrence have the same normal form (pivot, initial term, loop summands, divisor). Also: (e) polar methods that delegate to a library polar on a transformed matrix return factors whose product is the matrix (word algebra with a Hermitian polar factor); (f) the array handed to connector.assign is consumed - after `B = connector.assign(A, ...)` neither A nor an alias of A is read again on any CFG path (NumPy updates it in place, JAX/TensorFlow do not). Also: (g) the formula used for traced angles in GaussianState.get_phaseshifter_expectation_value has the same kernel as the eager formula: both exponents u^dagger T u are compared through the symbolic inverses of their kernels in an algebra where diagonal matrices commute with each other but not with the covariance, and the diagonal parts are compared as functions of the angle (sympy).",
     "C11": " Also: (g) no Python code reads the worker count (numba.get_num_threads, NUMBA_NUM_THREADS, cpu_count); (h) a hand-written cache keys on every attribute of self that the cached method reads and that a method other than __init__ re-assigns or mutates. Also: the seed of every privately constructed generator is traced to a read of the seed_sequence property; no object shared by the shots of a dask region (bound by partial, free variable of the per-shot closure) is written in place by the per-shot callable; the jobs of the native permanent tile the Gray-code range exactly for every job count (S(0)=0, E(K-1)=M-1, S(j+1)=E(j)+1, proved by case split over the comparisons). Also: (h, module-level form) a dict bound at module level and filled under `if key not in CACHE` is keyed on every input (access path rooted at a parameter) the stored value is computed from. Also: the identity of arrays updated through connector.assign is not a cache key; a shared Generator is replaced, never re-seeded in place.",
     "C06": " Also: (d) the accumulators of the vectorised index functions have a literal integer dtype of at least 32 bits, never the dtype of the argument. Also: (e) loop invariant of comb / arr_comb decided with sympy: the accumulator starts at 1 and one iteration maps C(n, i) to C(n, i + 1), so the division inside the loop is exact, intermediates are binomial coefficients and the accumulator itself is returned.",
-    "C12": " Also: (f) branches built in a loop do not share one state object (the simulator evolves branch states in place); shallow copies (copy.copy) keep their element aliases, the parts of a memoised object reached through attributes belong to it and attribute stores on them are writes.",
+    "C12": " Also: (f) branches built in a loop do not share one state object (the simulator evolves branch states in place); shallow copies (copy.copy) keep their element aliases, the parts of a memoised object reached through attributes belong to it and attribute stores on them are writes. Also: a shallow copy.copy of a registered instruction is not a copy (the parameter dictionaries stay shared).",
     "C13": " Also: (g) accumulator protocol for every cutoff >= 1: a constant index written into connector.accumulator(size=cutoff) is below the size and the start of a connector.range does not exceed its limit (fixed-size tf.TensorArray, tf.range). Also: the preparation-order validator may only test isinstance(., Preparation) (closed world). Also: (h) the number of modes inferred from a program is an aggregate (max) over all modes of every instruction, never one element of a mode tuple; (i) GaussianTransform._validate tests both Bogoliubov conditions - is_symplectic on the assembled [[P, A], [conj A, conj P]] with the complex symplectic form, or both block identities, compared in the matrix-word algebra.",
     "C14": " Also: doubling layouts - v.repeat(2) is pairwise (xpxp-like), concatenate([v, v]) / tile(v, 2) and the complex covariance / displacement are block (xxpp-like); sums and products combine one layout. Also: (c) every GaussianState constructed inside the library receives the config of the state it is derived from (hbar lives there); (d) ordering tags xpxp/xxpp: the index maps are applied to quantities of the source ordering, sums and products combine one ordering, ordering-named getters/setters return/receive that ordering. Also: elements of an ordering index map are positions in its source ordering; a callee that uses the elements of one parameter as indices into other parameters (summary by dataflow, also through nested functions) must receive positions and quantities of one ordering. Also: tolerance-based zero tests (allclose / isclose with 0) are applied to quantities of hbar-degree 0.",
     "C15": " Also: (c) each Givens step of the Clements sweep nulls one element of the addressed pair for the angles _get_angles returns, symbolically for every non-zero pivot and with the degenerate arm's constants for a zero pivot.",
     "C16": " Also: the rule is applied per mode-tuple source when a function handles two (register and instruction), to return-based shortcuts, to sequential positional edits (np.insert / delete / pop at positions from the mode tuple inside a loop over it), and to the methods of Program, Simulator and Instruction. Also: a fullness test by length, or any test over order-insensitive aggregates of the mode tuple (len/min/max/sum/set) that substitutes a value ignoring the tuple; the complement of the complement; outcome projections that run in parallel with the mode tuple. Also: (e) a state reduced to the measured modes is never addressed again with the original mode labels (no double relabelling, also through a parameter of a nested function); sequential `del x[p]` at positions from the mode tuple inside a loop over the tuple or its reverse. Also: parameters named *_modes are mode-tuple sources wherever they occur; an elementwise image of a sorted tuple is as order-destroyed as the sorted tuple.",
     "C17": " Also: (e) in a guarded gate step of the fermionic Fock simulator the coefficients that multiply amplitudes read from the state vector are loop-invariant (depend on the gate parameters, never on the basis state visited: on adjacent modes the Jordan-Wigner strings cancel); (f) every implementation of calculate_interferometer_on_fermionic_fock_space appends exactly one constant (first, zero particles) and every later representation depends on the matrix and, inside the loop, on a previous representation. Also: the predicate the adjacency guards rely on (are_modes_consecutive) looks at the elements of the tuple, not only at single elements and order-insensitive aggregates (first, last, length). Also: (g) a step of the fermionic Gaussian simulator that reads the normal block D also reads the pairing block E; (e) counts control dependence for coefficients with several definitions.",
     "C18": " Also: every use of an operand's raw amplitude map in __add__ is weighted by that operand's coefficient. Also: `map.get(key, default)` on an operand's raw amplitude map is a read of a raw amplitude like `map[key]`.",
-    "C19": " Also: no one-sided skip guard around emitted instructions; no sorted/set image of a gate's qubit operands; no bit resolved by its position in an instruction's own operand list. Also: a bit's own `_index` (its position inside its register) is never used: qubits and classical bits are resolved with find_bit(bit).index, so circuits built from several quantum / classical registers address the right modes and the right measurement.",
-    "C20": " Also: the whitelist is closed under subclassing (it is applied with isinstance) and every admitted operator class is a key of the table _eval uses; no comparator of a chained comparison is evaluated before the earlier links are tested; an evaluated slice bound is never used as a truth value; the value of a condition is consumed by truthiness only (never compared with True).",
+    "C19": " Also: no one-sided skip guard around emitted instructions; no sorted/set image of a gate's qubit operands; no bit resolved by its position in an instruction's own operand list. Also: a bit's own `_index` (its position inside its register) is never used: qubits and classical bits are resolved with find_bit(bit).index, so circuits built from several quantum / classical registers address the right modes and the right measurement. Also: (c) also through locals computed from `.qubits`; (e) the condition built for a classical bit reads the outcomes at positions computed from that bit's index, never at fixed positions.",
+    "C20": " Also: the whitelist is closed under subclassing (it is applied with isinstance) and every admitted operator class is a key of the table _eval uses; no comparator of a chained comparison is evaluated before the earlier links are tested; an evaluated slice bound is never used as a truth value; the value of a condition is consumed by truthiness only (never compared with True). Also: a handler around the evaluation of a condition re-raises: an expression that raises in Python never counts as met / not met.",
 }
 
 # properties whose check is built AND clean on the current tree (exit 0); others stay under not_applicable until then
